@@ -576,3 +576,95 @@ def err_stops(ctx, r):
                  f"arm {v}: after recording {kind} the arm {verdict}. The thread is stopped only by the caller looking at the error before the next instruction; a run loop that executes several instructions per turn keeps executing the failed program (its later output appears, or it finishes 'successfully'), so what the user sees depends on the step budget",
                  sample=f"{v}: error recorded, `return false` next")
     r.count("error-recording paths in step arms", n, 15, VM)
+
+
+_FCONST = {"EPSILON": 2.220446049250313e-16, "MIN_POSITIVE": 2.2250738585072014e-308, "MAX": 1.7976931348623157e308, "MIN": -1.7976931348623157e308,
+           "INFINITY": float("inf"), "NEG_INFINITY": float("-inf"), "NAN": float("nan")}
+
+
+def _feval(t, env):
+    """Evaluate a guard term over floats with the divisor bound in env; raises ValueError for anything not understood."""
+    import math
+
+    if not isinstance(t, tuple):
+        raise ValueError(str(t))
+    k = t[0]
+    for key, val in env:
+        if t == key:
+            return val
+    if k == "lit":
+        s = str(t[1])
+        if s in ("true", "false"):
+            return s == "true"
+        if "::" in s and s.split("::")[-1] in _FCONST:
+            return _FCONST[s.split("::")[-1]]
+        try:
+            return float(s.replace("_", "").rstrip("f64").rstrip("f32") or "x")
+        except ValueError:
+            raise ValueError(s)
+    if k == "un" and t[1] == "!":
+        return not _feval(t[2], env)
+    if k == "un" and t[1] == "-":
+        return -_feval(t[2], env)
+    if k == "bin":
+        op = t[1]
+        if op == "&&":
+            return _feval(t[2], env) and _feval(t[3], env)
+        if op == "||":
+            return _feval(t[2], env) or _feval(t[3], env)
+        a, b = _feval(t[2], env), _feval(t[3], env)
+        return {"==": a == b, "!=": a != b, "<": a < b, "<=": a <= b, ">": a > b, ">=": a >= b}[op]
+    if k == "call" and len(t) >= 3:
+        x = _feval(t[2], env)
+        m = t[1]
+        if m == "abs":
+            return abs(x)
+        if m == "is_nan":
+            return math.isnan(x)
+        if m == "is_finite":
+            return math.isfinite(x)
+        if m == "is_infinite":
+            return math.isinf(x)
+        if m == "is_sign_negative":
+            return math.copysign(1.0, x) < 0
+        if m == "is_normal":
+            return x != 0 and math.isfinite(x) and abs(x) >= _FCONST["MIN_POSITIVE"]
+        if m == "classify":
+            raise ValueError("classify")
+    raise ValueError(sshow(t) if "sshow" in globals() else str(t))
+
+
+@rule("FLOAT-DIV-ZERO", ["C16", "C15", "C05"], "float division reports `division by zero` exactly for a zero divisor (either sign) and yields the IEEE quotient for every other divisor, however small")
+def float_div_zero(ctx, r):
+    arms = _arms(ctx, r)
+    if arms is None:
+        return
+    n = 0
+    samples = [0.0, -0.0, 5e-324, -5e-324, 1e-300, 1e-19, -1e-19, 2.220446049250313e-16, 1.0, -1.0, 1e300, float("inf"), float("-inf"), float("nan")]
+    for v, arm, an in arms:
+        stores = [ev for ev in an.events if ev.kind == "store" and isinstance(ev.data[1], tuple) and ev.data[1][0] == "bin" and ev.data[1][1] == "/"]
+        if not stores:
+            continue
+        div = stores[0].data[1][3]
+        if not (isinstance(div, tuple) and div[0] in ("opnd", "imm") and ("float" in str(div))):
+            continue
+        n += 1
+        errs = [ev for ev in an.events if ev.kind == "assign" and ev.data[0] == ("self", "error") and "DivisionByZero" in str(ev.data[1])]
+        if not errs:
+            r.find(f"vm.rs:step:{v}:no-division-by-zero-error", VM, arm["l"], f"arm {v} divides floats without reporting a zero divisor")
+            continue
+        bad = None
+        try:
+            for x in samples:
+                env = [(div, x)]
+                raised = any(all(bool(_feval(c, env)) == pol for c, pol in ev.conds) for ev in errs)
+                if raised != (x == 0.0):
+                    bad = (x, raised)
+                    break
+        except (ValueError, KeyError, TypeError, OverflowError) as e:
+            r.missing(f"vm.rs:step:{v}:division-guard-form", VM, f"cannot evaluate the guard of the division-by-zero error: {e}")
+            continue
+        r.ob(bad is None, f"vm.rs:step:{v}:zero-divisor-guard", VM, arm["l"],
+             f"arm {v}: for the divisor {bad[0] if bad else ''} the arm {'reports division by zero' if bad and bad[1] else 'divides'}; only a divisor equal to zero is an error, and the constant fold of `lit / lit` tests exactly that, so the literal form and the variable form of one division disagree",
+             sample=f"{v}: division by zero iff divisor == 0.0 ({len(samples)} representative divisors)")
+    r.count("float division arms", n, 2, VM)
